@@ -367,10 +367,10 @@ func c12(c *Ctx) {
 		var manual []cfgx.Edge
 		for _, b := range ft.Blocks {
 			for _, in := range b.Instrs {
-				if bo, ok := in.(*ssa.BinOp); ok && bo.Op == token.EQL {
+				if bo, ok := in.(*ssa.BinOp); ok && isEqOrNeq(bo) {
 					for _, s := range []ssa.Value{bo.X, bo.Y} {
 						if v, ok := cfgx.ConstString(s); ok && v == "Manual" {
-							t, _ := cfgx.CondEdges(bo)
+							t, _ := eqEdges(bo)
 							manual = append(manual, t...)
 						}
 					}
@@ -429,10 +429,10 @@ func c12(c *Ctx) {
 		var auto []cfgx.Edge
 		for _, b := range gl.Blocks {
 			for _, in := range b.Instrs {
-				if bo, ok := in.(*ssa.BinOp); ok && bo.Op == token.EQL {
+				if bo, ok := in.(*ssa.BinOp); ok && isEqOrNeq(bo) {
 					for _, s := range []ssa.Value{bo.X, bo.Y} {
 						if v, ok := cfgx.ConstString(s); ok && v == "Automatic" {
-							t, _ := cfgx.CondEdges(bo)
+							t, _ := eqEdges(bo)
 							auto = append(auto, t...)
 						}
 					}
